@@ -529,7 +529,7 @@ impl H {
     }
 
     fn after_block(&mut self, h: BlockHeight, scan_now: bool) {
-        if scan_now && !self.unscanned.is_empty() && self.rng.chance(1, 3) {
+        if scan_now && !self.unscanned.is_empty() && self.rng.chance(1, 2) {
             // scan only the newest block: the older ones stay an unscanned gap below the tip
             self.st.scan_cached_blocks(h, 1);
             self.bump("scan_newest_only_leaving_gap");
@@ -1148,7 +1148,7 @@ impl H {
         let n0 = 1 + self.rng.below(3) as usize;
         self.op_empty(n0, true);
         for _ in 0..nops {
-            let scan_now = !self.rng.chance(1, 6);
+            let scan_now = !self.rng.chance(1, 4);
             let accts = self.acct_ids();
             match self.rng.below(25) {
                 22..=24 => {
